@@ -66,7 +66,15 @@ func plant(r *rng.R, cs *gen.Case) *fault {
 		}
 	}
 	for attempt := 0; attempt < 12; attempt++ {
-		switch r.Intn(17) {
+		switch r.Intn(18) {
+		case 17: // a statement function used as a variable origin
+			sc.Vars = append(sc.Vars, &gen.VarDecl{Type: r.Pick("string", "number", "monetary"), Name: "misplaced",
+				Origin: &gen.Call{Name: r.Pick("set_tx_meta", "set_account_meta"), Args: []gen.Expr{gen.S("k"), gen.S("v")}}})
+			if r.Bool() {
+				sc.Stmts = append(sc.Stmts, &gen.Call{Name: "set_tx_meta", Args: []gen.Expr{gen.S("m"), gen.V("misplaced")}})
+				cs.Tune = append(cs.Tune, nil)
+			}
+			return &fault{kind: "statement-function-as-origin", classes: []string{model.EUnboundFn}}
 		case 16: // a second `remaining` clause in an allotment (grammatical; meaning not specified)
 			for _, s := range sends {
 				if d, ok := s.Dst.(*gen.DstAllot); ok && len(d.Items) >= 2 {
